@@ -191,6 +191,49 @@ DELIVERABLES - create the directory {wt}/seed_out and put there, for X in (A, B,
   {wt}/seed_out/demo_X.py       run as: cd {wt} && PYTHONPATH={wt}/src:{wt} /venv/bin/python seed_out/demo_X.py
   {wt}/seed_out/notes_X.md      3-8 lines: what the change is, why it breaks the property, what it needs to manifest, what you ran (suite before/after, demo exit codes)
 Leave the worktree with NO change applied at the end (git checkout -- src), keep seed_out/. Finish with a short report. If you cannot find three good changes deliver as many as you can.""")
+elif mode == 'hard7':
+    print(f"""You are helping to evaluate a verification tool by writing realistic, hard-to-notice defects ("seeded changes").
+
+{common}
+YOUR TASK: produce THREE different, independent changes to the library source under {wt}/src/emsarray (call them A, B and C), each of which
+  1. BREAKS the property above (for some input / configuration / history the statement becomes false),
+  2. still imports/compiles and keeps every currently passing test of the existing suite passing (unchanged test files),
+  3. needs something SPECIFIC to manifest; ordinary use of the sample datasets must not expose it.
+This round is about defects that hide INSIDE A REFACTORING. Each change must be a commit that a reviewer would read as a pure, behaviour-preserving refactoring - 20 to 70 changed lines, most of which really do preserve behaviour - in which ONE detail is not equivalent and breaks the property. Use a different kind of refactoring for each of A, B, C, out of:
+  * modernisation: assignment expressions, `match` statements (Python 3.12), `itertools.pairwise` / `zip(strict=True)` / `math.prod`, `functools.partial`, `operator.itemgetter`, `dict | dict`, `contextlib.suppress`, f-strings - where the modern form differs in one corner (a walrus that changes what is evaluated when; a `match` arm order or a missing arm; `suppress` around one statement too many; a falsy value taken for a missing one by `or` / `.get(...) or default`; `|` precedence);
+  * restructuring: a function split into helpers, a closure moved to module level, a chain of `if` turned into a table, a tuple turned into a dataclass / NamedTuple - where a guard, a copy, a sort, a default argument, the order of two steps or one table entry is lost or altered on the way, or the helper is right for one caller only;
+  * control flow: LBYL <-> EAFP, `for ... else`, early exits, flattened or nested `if`, De Morgan, swapped branches - where the new condition is not the exact negation, the `except` catches more than the look-up, the `else` belongs to another statement, a `continue` became a `break`, or a boundary comparison changed (`<` / `<=`);
+  * data handling: a loop vectorised, boolean mask <-> index array, `numpy.where(c)[0]`, `numpy.take`, `numpy.unique`, `dict(zip(...))`, comprehension <-> `map` - where values, dtype, order, duplicates, masked / NaN / empty input or the axis are handled differently;
+  * naming and layout: locals and private helpers renamed, statements and guard clauses reordered, literals moved into module / class constants - where two names are mixed up after the rename, a reordering moves a statement across something it depends on, or a constant shared between two uses is right for one.
+The non-equivalent detail must be the kind of slip a careful human could make and a reviewer could miss; do not add unrelated code. They must be made in different functions, and at least one must be made outside the functions the property names as its anchors (in a helper, property, base class, sibling convention or the command line wiring that the anchored code relies on).
+For each change write a demonstration: a standalone Python program that exits with status 0 when the property holds and 1 (printing what went wrong) when violated; it must exit 0 on the UNMODIFIED tree and 1 with the change applied. Locate any data files relative to the current working directory (the worktree root), never via __file__. Do not compare against text that contains the name of your script (argparse error messages do).
+
+DELIVERABLES - create the directory {wt}/seed_out and put there, for X in (A, B, C):
+  {wt}/seed_out/patch_X.diff   output of `git diff -- src` with ONLY change X applied (each patch applies alone to the unmodified tree with `git apply`)
+  {wt}/seed_out/demo_X.py       run as: cd {wt} && PYTHONPATH={wt}/src:{wt} /venv/bin/python seed_out/demo_X.py
+  {wt}/seed_out/notes_X.md      3-8 lines: what the refactoring is, which single detail is not equivalent, why that breaks the property, what it needs to manifest, what you ran (suite before/after, demo exit codes)
+Leave the worktree with NO change applied at the end (git checkout -- src), keep seed_out/. Finish with a short report. If you cannot find three good changes deliver as many as you can.""")
+elif mode == 'benign7':
+    print(f"""You are helping to evaluate a verification tool by writing BEHAVIOUR-PRESERVING refactorings: edits a maintainer might make that change how the code is written but not what it does. The tool under evaluation must stay silent on them.
+
+{common}
+YOUR TASK: produce FOUR different, independent, behaviour-preserving refactorings (call them A, B, C and D) of the code this property depends on (the functions it is anchored in, the helpers, properties and base-class methods they rely on) under {wt}/src/emsarray. Each must
+  1. leave the behaviour exactly the same for every input (the property above, and every other behaviour, still holds; same results, same dtypes and orders, same exceptions and messages, same warnings),
+  2. compile and keep every currently passing test passing,
+  3. read like a REAL upstream commit. This round is about the ORGANISATION of the code rather than single statements; use a different kind for each of A-D, out of:
+     * helpers and where they live: a block of a long function extracted into a private module-level function, a staticmethod or a private method (pass what it needs as arguments, return what the caller uses); two small private helpers merged into their only caller (or one into the other); a nested function (closure) turned into a module-level function with explicit parameters, or the reverse; a private helper moved to another module of the package and imported from there (keep the public API and the public function / method / class names and locations as they are);
+     * names and imports: private helpers, private methods, nested functions, parameters' local copies and locals renamed consistently; `import numpy` <-> `import numpy as np` <-> `from numpy import ...` for some of the names a module uses; `from emsarray import utils` <-> `from emsarray.utils import name_to_data_array`; a module-level alias introduced for a long dotted name;
+     * state and types: `@property` <-> `@cached_property` only where the value cannot change during the object's life and is not already cached elsewhere; a tuple / dict of intermediates replaced by a small frozen dataclass or NamedTuple that is built once and read through its fields; type annotations, `typing.cast` and `TYPE_CHECKING` imports added or tidied (no runtime effect); class-level constant tables for literals used by several methods;
+     * control flow over several statements: guard clauses hoisted to the top, a flag variable replaced by early exits, nested `if` flattened (or the reverse), `if/elif/else` chain <-> `match` <-> dispatch dict where exactly equivalent, loop `else`, try/except narrowed to the one statement that can raise (only where the other statements cannot raise that exception);
+     * expression-level rewrites with identical results: comprehension <-> loop with `append`, `any` / `all` / `next` with generators, `dict.get` / `setdefault` / `defaultdict`, conditional expressions <-> if/else, chained comparisons, arithmetic re-associated only on integers, `numpy.flatnonzero` <-> boolean mask, intermediate variables introduced or removed.
+  At least TWO of the four must touch TWO OR MORE functions in one commit (extract and rename; move a helper and change how it is imported; a dataclass threaded through two functions). 15-80 changed lines each. Keep public names (functions, methods, classes, properties without a leading underscore) where they are; do NOT change semantics, defaults, error types or messages, and do not touch the tests.
+For each refactoring write an equivalence demonstration: a standalone Python program that exercises the refactored functions on several inputs (including awkward ones: one-based and transposed storage, masked entries, 1xN shapes, several grid kinds, empty selections, whatever this property is about) and compares results with expected values computed independently or recorded from the unmodified tree (embed the expected values in the script); it must exit 0 both on the unmodified tree and with the refactoring applied. Locate any data files relative to the current working directory (the worktree root), never via __file__. Do not compare against text that contains the name of your script (argparse error messages do) or memory addresses.
+
+DELIVERABLES - create the directory {wt}/seed_out and put there, for X in (A, B, C, D):
+  {wt}/seed_out/patch_X.diff   output of `git diff -- src` with ONLY refactoring X applied (each patch applies alone to the unmodified tree with `git apply`)
+  {wt}/seed_out/demo_X.py       run as: cd {wt} && PYTHONPATH={wt}/src:{wt} /venv/bin/python seed_out/demo_X.py    (exit 0 before and after)
+  {wt}/seed_out/notes_X.md      3-8 lines: which kind(s) of refactoring, which functions, why behaviour is identical, what you ran (suite before/after, demo exit codes)
+Leave the worktree with NO change applied at the end (git checkout -- src), keep seed_out/. Finish with a short report. If you cannot find four good refactorings deliver as many as you can.""")
 else:
     print(f"""You are helping to evaluate a verification tool by writing BEHAVIOUR-PRESERVING refactorings: edits a maintainer might make that change how the code is written but not what it does. The tool under evaluation must stay silent on them.
 
